@@ -177,3 +177,23 @@ def design_legs(ctx, configs, invariants, liveness, neg_invariants, h, rnd, n_si
         neg = {"Calls": "<-" + calls, "NW": nw, "WorkCap": wq, "ResCap": rq, "Design": '"pinned"'}
         model.mc(MC, neg, ctx, "FunctorPool_pinned", invariants=neg_invariants, view=None, workers=16, expect_violation=True)
     return conf
+
+
+FMC = os.path.join(tlc.SPECS, "pool", "MC_FactoryPool.tla")
+
+
+def factory_design_legs(ctx, quick, invariants, neg_design, neg_invariants):
+    """Exhaustive TLC runs of the design-level model of FactoryFunctorPool (quota, retirement, replace thread, several calls,
+    exit), a negative control, and the configuration of the open known finding, which the model must exhibit too."""
+    configs = [("C222", 1, 4, 1, 0, 2), ("C2", 2, 4, 2, 0, 1)] if quick else \
+              [("C222", 1, 4, 1, 0, 2), ("C21", 2, 5, 2, 0, 1), ("C23u", 2, 5, 2, 1, 2), ("C202u", 2, 5, 0, 0, 1), ("C2", 2, 4, 2, 0, 1)]
+    for calls, nw, maxwid, wq, rq, quota in configs:
+        consts = {"Calls": "<-" + calls, "NW": nw, "MaxWid": maxwid, "WorkCap": wq, "ResCap": rq, "Quota": quota, "Design": '"fixed"'}
+        model.mc(FMC, consts, ctx, "FactoryPool_%s_w%d_q%d_r%d_k%d" % (calls, nw, wq, rq, quota), invariants=invariants + ["WidBound"],
+                 view=None, workers=16, timeout=2400)
+    neg = {"Calls": "<-C222", "NW": 1, "MaxWid": 4, "WorkCap": 1, "ResCap": 0, "Quota": 2, "Design": '"%s"' % neg_design}
+    model.mc(FMC, neg, ctx, "FactoryPool_" + neg_design, invariants=neg_invariants, view=None, workers=16, expect_violation=True)
+    known = {"Calls": "<-C2", "NW": 2, "MaxWid": 4, "WorkCap": 1, "ResCap": 0, "Quota": 1, "Design": '"fixed"'}
+    res = model.mc(FMC, known, ctx, "FactoryPool_known_finding_wq_below_workers", invariants=["NoDeadlock"], view=None, workers=16,
+                   expect_violation=True)
+    ctx.extra["model_exhibits_open_known_finding"] = {"config": "2 workers, quota 1, WorkCap 1", "violated": res.violated}
